@@ -32,6 +32,7 @@ from tracklib.io.network_format import NetworkFormat
 from vt import gen
 from vt.core import SubCheck, Violation
 
+HANG_IS_VIOLATION = False      # cost depends on generated grid / file sizes: a CPU budget hit is inconclusive here
 ASSUMPTIONS = [
     "writer and reader are paired as the test-suite's callers do: ObsTime.setPrintFormat(F) before writeToFile, "
     "ObsTime.setReadFormat(F) before the TrackFormat is built, the same column ids / separator / header flag / srid on both sides; "
